@@ -390,6 +390,11 @@ pub struct Sim<C: SourceController> {
     pub spy: Option<SpyShared>,
     pub clock_id: ClockId,
     pub initial_timer: Option<Duration>,
+    /// auto mode: the most recent request (index) is a v4 upgrade request for which a matching
+    /// answer carrying the upgrade marker was already delivered. By the statement of C12 the source
+    /// may have switched to NTPv5 at that point, so which version it "expects" for further answers
+    /// to that same request is not determined by the statement (Silent).
+    pub marker_seen_for: Option<usize>,
 }
 
 impl Sim<Spy> {
@@ -422,6 +427,7 @@ impl<C: SourceController> Sim<C> {
             spy: None,
             clock_id: ClockId::new(),
             initial_timer: None,
+            marker_seen_for: None,
         };
         for a in actions {
             if let NtpSourceAction::SetTimer(d) = a {
@@ -604,6 +610,7 @@ impl<C: SourceController> Sim<C> {
         };
         let version_expected = match latest {
             None => Tri::No,
+            Some(s) if self.marker_seen_for == Some(s.idx) && (h.version == 4 || h.version == 5) => Tri::Silent,
             Some(s) if s.version == h.version => Tri::Yes,
             Some(s) if s.version == 4 && h.version == 3 => Tri::Silent,
             Some(_) => Tri::No,
@@ -638,6 +645,13 @@ impl<C: SourceController> Sim<C> {
         let t1 = d.t1.unwrap_or(last.t1);
         let t4 = d.t4.unwrap_or_else(|| self.local_now());
         let latest_idx = last.idx;
+        if self.mode == Mode::Auto && last.marker {
+            if let Some(h) = refntp::parse_header(&d.bytes) {
+                if h.version == 4 && h.reference_ts == UPGRADE_MARKER && h.origin == last.id && self.now - last.at <= WINDOW {
+                    self.marker_seen_for = Some(latest_idx);
+                }
+            }
+        }
         out.unanswered_before = self.unanswered();
         out.probe_before = Some(self.probe());
         let src = &mut self.src;
@@ -834,9 +848,149 @@ pub fn act_names(acts: &[Act]) -> Vec<String> {
 }
 
 pub fn probe_json(p: &SrcProbe) -> serde_json::Value {
+    let proto = ["V4", "V4UpgradingToV5", "UpgradedToV5", "V5"][p.proto as usize & 3];
     serde_json::json!({
-        "proto": ["V4", "V4UpgradingToV5", "UpgradedToV5", "V5"][p.proto as usize], "tries_left": p.tries_left,
+        "proto": proto, "tries_left": p.tries_left,
         "reach": format!("{:08b}", p.reach), "tries": p.tries, "last_poll": p.last_poll,
         "remote_min_poll": p.remote_min_poll, "have_deny": p.have_deny, "has_pending": p.has_pending,
     })
+}
+
+// ---------------------------------------------------------------------------------------------
+// manglers shared by the monitors
+
+pub const DRAFT_ID_FALLBACK: &[u8] = b"draft-ietf-ntp-ntpv5-09";
+
+/// Re-issue `a` as a packet of another protocol version keeping the echoed identifier and
+/// the timestamps (what a confused or hostile server might send).
+pub fn reversion(a: &Answer, to: u8, draft: &[u8]) -> Answer {
+    let mut b = a.clone();
+    let from = a.h.version;
+    b.h.version = to;
+    b.fields.clear();
+    if to == 5 {
+        b.h.flags = 1;
+        b.h.timescale = 0;
+        b.h.era = 0;
+        b.h.server_cookie = a.h.transmit_ts ^ 0x5555_5555_5555_5555;
+        b.fields.push((EF_V5_DRAFT_ID, draft.to_vec()));
+        if from != 5 {
+            // time32 instead of NTP short
+            b.h.root_delay = 0x0010_0000;
+            b.h.root_dispersion = 0x0020_0000;
+        }
+    } else if from == 5 {
+        b.h.reference_id = [10, 0, 0, 1];
+        b.h.reference_ts = a.h.receive_ts & 0xFFFF_FF00_0000_0000;
+        b.h.root_delay = 0x0000_0100;
+        b.h.root_dispersion = 0x0000_0200;
+    }
+    b
+}
+
+/// The draft identification string seen in the most recent v5 request of this session, or the
+/// published draft name.
+pub fn draft_of(sent: &[Sent]) -> Vec<u8> {
+    sent.iter()
+        .rev()
+        .filter_map(|s| s.pkt.fields.iter().find(|f| f.type_id == EF_V5_DRAFT_ID).map(|f| f.value.clone()))
+        .next()
+        .unwrap_or_else(|| DRAFT_ID_FALLBACK.to_vec())
+}
+
+#[derive(Clone, Copy, Debug, PartialEq, Eq, Hash)]
+pub enum Mangle {
+    /// random origin / client cookie
+    ForeignOrigin,
+    /// one bit of the origin flipped
+    OriginBitFlip,
+    /// origin of an older request of this session (falls back to ForeignOrigin)
+    OlderOrigin,
+    /// same identifier, other protocol version
+    Version(u8),
+    /// same identifier, mode other than server
+    ModeNot4(u8),
+    /// stratum 0 (no kiss code of note) or > 16
+    Stratum(u8),
+    Kiss([u8; 4]),
+}
+
+impl Mangle {
+    pub fn name(&self) -> &'static str {
+        match self {
+            Mangle::ForeignOrigin => "foreign-origin",
+            Mangle::OriginBitFlip => "origin-bitflip",
+            Mangle::OlderOrigin => "older-origin",
+            Mangle::Version(3) => "as-v3",
+            Mangle::Version(4) => "as-v4",
+            Mangle::Version(_) => "as-v5",
+            Mangle::ModeNot4(_) => "wrong-mode",
+            Mangle::Stratum(0) => "stratum0",
+            Mangle::Stratum(_) => "stratum>16",
+            Mangle::Kiss(k) => match k {
+                b"RATE" => "kiss-rate",
+                b"DENY" => "kiss-deny",
+                b"RSTR" => "kiss-rstr",
+                b"NTSN" => "kiss-ntsn",
+                _ => "kiss-other",
+            },
+        }
+    }
+}
+
+pub fn random_mangle(rng: &mut crate::core::Rng, req_version: u8) -> Mangle {
+    match rng.below(8) {
+        0 => Mangle::ForeignOrigin,
+        1 => Mangle::OriginBitFlip,
+        2 => Mangle::OlderOrigin,
+        3 => {
+            let vs: Vec<u8> = [3u8, 4, 5].into_iter().filter(|v| *v != req_version).collect();
+            Mangle::Version(*rng.pick(&vs))
+        }
+        4 => Mangle::ModeNot4(*rng.pick(&[0u8, 1, 2, 3, 5, 6, 7])),
+        5 => Mangle::Stratum(if rng.bool() { 0 } else { *rng.pick(&[17u8, 18, 32, 127, 128, 255]) }),
+        _ => Mangle::Kiss(*rng.pick(&[*b"RATE", *b"DENY", *b"RSTR", *b"NTSN", *b"XXXX"])),
+    }
+}
+
+/// Apply a mangle to the genuine answer `a` for request `req`. Returns the datagram and
+/// whether it may have become unparsable for a strict decoder (v5 modes other than 3/4).
+pub fn mangle(rng: &mut crate::core::Rng, sent: &[Sent], req: &Sent, a: &Answer, m: Mangle) -> Datagram {
+    let mut b = a.clone();
+    let mut maybe_malformed = false;
+    match m {
+        Mangle::ForeignOrigin => b.h.origin = rng.u64(),
+        Mangle::OriginBitFlip => b.h.origin ^= 1u64 << rng.below(64),
+        Mangle::OlderOrigin => {
+            let older: Vec<&Sent> = sent.iter().filter(|s| s.idx < req.idx && s.id != req.id && s.version == req.version).collect();
+            if older.is_empty() {
+                b.h.origin = rng.u64();
+            } else {
+                b.h.origin = older[rng.below(older.len() as u64) as usize].id;
+            }
+        }
+        Mangle::Version(v) => b = reversion(a, v, &draft_of(sent)),
+        Mangle::ModeNot4(md) => {
+            b.h.mode = md;
+            if b.h.version == 5 {
+                maybe_malformed = true;
+            }
+        }
+        Mangle::Stratum(s) => {
+            b.h.stratum = s;
+            if s == 0 && b.h.version != 5 {
+                b.h.reference_id = [0; 4];
+            }
+        }
+        Mangle::Kiss(k) => {
+            let marker = a.h.version == 4 && a.h.reference_ts == UPGRADE_MARKER;
+            b = kiss(req, &k, rng.u64());
+            if marker && rng.bool() {
+                b.h.reference_ts = UPGRADE_MARKER;
+            }
+        }
+    }
+    let mut d = Datagram::new(b.encode(), m.name());
+    d.maybe_malformed = maybe_malformed;
+    d
 }
